@@ -857,6 +857,33 @@ def gen_handshake_h(rng, tier):
     return cases, stats
 
 
+def unmatched_pairs(rng, per_step):
+    """(case with unmatched replies before a time-out, same case without them, description)"""
+    pairs = []
+    for step, chs in L.STEP_CHAR.items():
+        ch = ord(chs)
+        pls = step_payloads(rng, step)
+        args = {'switch_codec': [5, 6, 26, 7], 'downenctest': [ord('S'), ord('R')], 'upenctest': [0, 2, 6], 'qtypetest': [1, 3],
+                'set_fragsize': [1200]}.get(step, [0])
+        for _ in range(per_step):
+            pl = rng.choice(pls)
+            qt, de = rng.choice([(L.T_NULL, ord('R')), (rng.choice(L.TYPES), rng.choice(L.CODEC_LETTERS))])
+            kind = rng.randrange(3)
+            if kind == 0:      # right first character, DNS id 0 (chunkid is never 0)
+                noise, what = [('', reply_for(rng, ch, pl, qt, de))], 'the right name but a DNS id that was never sent'
+            elif kind == 1:    # right id, wrong first character
+                other = rng.choice([c for c in b'vlizysornxq' if c != ch and c != ch ^ 32])
+                noise, what = [('=', reply_for(rng, other, pl, qt, de))], 'the DNS id of the query but another command letter'
+            else:
+                other = rng.choice([c for c in b'vlizysornxq' if c != ch and c != ch ^ 32])
+                noise, what = [('', reply_for(rng, ch, pl, qt, de)), ('=', reply_for(rng, other, pl, qt, de))], 'a wrong id / another command letter'
+            rest = ['T', ('@', reply_for(rng, ch, rng.choice(pls), qt, de)), 'T', 'T', 'T', 'T', 'T']
+            kw = dict(qtype=rng.choice([10, 65399, 16, 33, 15, 5, 1]) if step != 'qtype_auto' else 0, uid=rng.randrange(16), lazy=rng.randrange(2),
+                      downenc=rng.choice([32, ord('T'), ord('S'), ord('R')]), seed=rng.randrange(1 << 31), arg=rng.choice(args))
+            pairs.append((L.hs_case(step, items=noise + rest, **kw), L.hs_case(step, items=rest, **kw), what))
+    return pairs
+
+
 def login_pairs(rng):
     """(c): an unterminated login reply R alone, and R after a longer reply that is not a login
     reply: a client that parses only the bytes of R sets the same tunnel parameters both times"""
@@ -965,6 +992,25 @@ def stream_handshake(rep, ctx, findings):
             findings.add(reps[0]['key'] if reps else 'dns_namedec:writes-past-outdatalen',
                          'dns_namedec wrote more than outdatalen bytes' + (': %s at %s' % (reps[0]['msg'], reps[0]['loc']) if reps else ''),
                          dict(kind='input', driver='hf' if nm == 'plain' else 'hf.rec', case=ncases[bad], observed=(nl[bad] + ' ' + err[-1500:]), stream='namedec'))
+    # (1b) replies that do not match the query just sent (wrong DNS id, or wrong first name character) must be
+    #      ignored by every handshake step: the outcome equals the outcome of the run without them
+    if 'hf' in ctx.exe:
+        upairs = unmatched_pairs(rng, 6 if rep.tier == 'quick' else 40)
+        flat = [c for pr in upairs for c in pr[:2]]
+        res, _ev = run_stream_merged(ctx.exe['hf'], flat, ctx.work, 'hsu-plain', H_RE)
+        nun = 0
+        for k, (a, b, what) in enumerate(upairs):
+            ra, rb = res[2 * k], res[2 * k + 1]
+            nun += 1
+            if ra is None or rb is None or ra.startswith('BAIL') or rb.startswith('BAIL'):
+                continue
+            # 'left' counts unused script items and differs by construction
+            if re.sub(r' left=\d+', '', ra) != re.sub(r' left=\d+', '', rb):
+                findings.add('handshake:unmatched-reply-accepted',
+                             'a reply with %s changed the outcome of the handshake step (it must be ignored): with it %r, without it %r' % (what, ra[:160], rb[:160]),
+                             dict(kind='input', driver='hf', case=a, baseline_case=b, observed=ra[:300], expected=rb[:300], stream='handshake-step'))
+                break
+        rep.cov['handshake_unmatched_reply_pairs'] = nun
     # (2) stale bytes of an earlier reply parsed as part of the login reply
     if 'hf' in ctx.exe:
         for a, b in login_pairs(rng):
